@@ -43,11 +43,13 @@ func init() {
 			}
 		},
 		run: func(c *caseCtx) caseResult {
-			switch c.n % 3 {
+			switch c.n % 4 {
 			case 0:
 				return c10Dup(c)
 			case 1:
 				return c10Cycle(c)
+			case 2:
+				return c10Child(c)
 			default:
 				return c10Mixed(c)
 			}
@@ -486,5 +488,126 @@ func c10Mixed(c *caseCtx) (res caseResult) {
 	if c.n < 3 || res.Verdict == vViolated {
 		res.Sample = map[string]any{"scenario": res.Desc, "instances": total}
 	}
+	return res
+}
+
+
+// c10Child: duplicate SpawnChild under one parent, a top-level spawn colliding with
+// a child's id, and respawning a child after it stopped.
+type c10Parent struct {
+	w     *c10World
+	cmds  chan func(c *actor.Context)
+	ready chan struct{}
+}
+
+type c10Do struct{ f func(c *actor.Context) }
+
+func (p *c10Parent) Receive(c *actor.Context) {
+	if d, ok := c.Message().(c10Do); ok {
+		d.f(c)
+	}
+}
+
+func c10Child(c *caseCtx) (res caseResult) {
+	r := c.rng
+	wd := watchdog(c.tier)
+	e, mon, _, err := newMonitoredEngine()
+	if err != nil {
+		res.inconclusive("engine: %v", err)
+		return
+	}
+	w := newC10World()
+	parent := e.Spawn(func() actor.Receiver { return &c10Parent{w: w} }, "par", actor.WithID("p"))
+	do := func(f func(c *actor.Context)) bool {
+		done := make(chan struct{})
+		e.Send(parent, c10Do{f: func(c *actor.Context) { f(c); close(done) }})
+		select {
+		case <-done:
+			return true
+		case <-time.After(wd):
+			return false
+		}
+	}
+	nDup := 1 + r.Intn(4)
+	childKey := "par/p/kid/x" // registry id of the child
+	var pids []*actor.PID
+	var kidsSeen []string
+	ok := do(func(c *actor.Context) {
+		for i := 0; i <= nDup; i++ {
+			pids = append(pids, c.SpawnChild(w.producer(childKey), "kid", actor.WithID("x")))
+		}
+		for _, k := range c.Children() {
+			kidsSeen = append(kidsSeen, k.ID)
+		}
+	})
+	if !ok {
+		res.inconclusive("parent did not answer")
+		return
+	}
+	// a top-level spawn whose kind/id collide with the child's registry id
+	outsider := e.Spawn(w.producer(childKey), "par/p/kid", actor.WithID("x"))
+	mon.flush(e, wd)
+	res.Desc = fmt.Sprintf("child duplicates=%d + colliding top-level spawn", nDup)
+	w.mu.Lock()
+	produced := w.produced[childKey]
+	w.mu.Unlock()
+	if produced != 1 {
+		res.violate("%d SpawnChild calls with one id and a colliding top-level spawn ran the Producer %d times, expected once", nDup+1, produced)
+	}
+	dups := mon.count(func(x any) bool { ev, ok := x.(actor.ActorDuplicateIdEvent); return ok && ev.PID.ID == childKey })
+	if dups != nDup+1 {
+		res.violate("%d ActorDuplicateIdEvents for the child's id, expected %d", dups, nDup+1)
+	}
+	for _, p := range append(pids, outsider) {
+		if p == nil || p.ID != childKey {
+			res.violate("a spawn of the taken id returned PID %v", p)
+		}
+	}
+	if len(kidsSeen) != 1 || kidsSeen[0] != childKey {
+		res.violate("Children() after duplicate SpawnChild calls = %v, expected exactly the one child", kidsSeen)
+	}
+	// the child still works: messages reach the one instance
+	for i := 0; i < 5; i++ {
+		e.Send(pids[0], c10Msg{ID: i})
+	}
+	var inst *c10Instance
+	w.mu.Lock()
+	if len(w.instances[childKey]) > 0 {
+		inst = w.instances[childKey][0]
+	}
+	w.mu.Unlock()
+	if inst != nil && !waitFor(wd, func() bool { inst.mu.Lock(); defer inst.mu.Unlock(); return len(inst.got) == 5 }) {
+		res.violate("the existing child did not receive the messages sent after the duplicate spawns")
+	}
+	// stop the child, then the id can be spawned again (once)
+	select {
+	case <-e.Poison(pids[0]).Done():
+	case <-time.After(wd):
+		res.inconclusive("child did not stop")
+		return
+	}
+	if e.Registry.GetPID("par/p/kid", "x") != nil {
+		res.violate("GetPID still finds the child after its stop context was done")
+	}
+	ok = do(func(c *actor.Context) {
+		c.SpawnChild(w.producer(childKey), "kid", actor.WithID("x"))
+		c.SpawnChild(w.producer(childKey), "kid", actor.WithID("x"))
+	})
+	if !ok {
+		res.inconclusive("parent did not answer")
+		return
+	}
+	w.mu.Lock()
+	produced = w.produced[childKey]
+	w.mu.Unlock()
+	if produced != 2 {
+		res.violate("after the child had stopped, two SpawnChild calls with its id brought the total of Producer runs to %d, expected 2 (one respawn, one duplicate)", produced)
+	}
+	res.count("child_duplicate_spawns", int64(nDup+1))
+	res.Sig = sigHash("child", nDup)
+	if c.n < 3 || res.Verdict == vViolated {
+		res.Sample = map[string]any{"scenario": res.Desc, "producer_runs": produced, "duplicate_events": dups}
+	}
+	e.Poison(parent)
 	return res
 }
